@@ -57,6 +57,13 @@ def scenario(which, rar):
     neff = (nstart + J * sel) if rar else None
     pre = [b >= 1, n < 2 ** 30]
     rarp = None
+    def start_without_rar(total):
+        """the start count a generator built without RAR carries, whatever the user passed for it: the value the
+        constructor's own normalisation (_check_and_set_rar_parameters, executed here) leaves in the field"""
+        outs = ex.call_function("_check_and_set_rar_parameters", [None, total, z3.Int("n_start_given_by_user")])
+        if len(outs) != 1 or outs[0].kind != "return":
+            raise pyvc.Unsupported("_check_and_set_rar_parameters without RAR: expected one normal return")
+        return outs[0].value[0]
     if rar:
         rarp = {"start_iter": z3.Int("start_iter"), "update_every": z3.Int("update_every"),
                 "selected_sample_size_times": sel, "selected_sample_size_omega": sel,
@@ -67,7 +74,7 @@ def scenario(which, rar):
         p, _ = store("p_times", (n,))
         cls = which.split(".")[0]
         f = dict(key=Key(), nt=n, tmin=0.0, tmax=1.0, temporal_batch_size=b, method="uniform", rar_parameters=rarp,
-                 nt_start=nstart if rar else n, p_times=p if rar else None, rar_iter_from_last_sampling=None,
+                 nt_start=nstart if rar else start_without_rar(n), p_times=p if rar else None, rar_iter_from_last_sampling=None,
                  rar_iter_nb=J if rar else None, curr_time_idx=idx, times=st)
         if cls == "CubicMeshPDENonStatio":
             f.update(n=z3.Int("nx"), nb=None, omega_batch_size=z3.Int("bx"), omega_border_batch_size=None, dim=1,
@@ -82,7 +89,7 @@ def scenario(which, rar):
         p, _ = store("p_omega", (n,))
         rec = Rec("CubicMeshPDEStatio", dict(
             key=Key(), n=n, nb=None, omega_batch_size=b, omega_border_batch_size=None, dim=dim, min_pts=(0.0,) * dim,
-            max_pts=(1.0,) * dim, method="uniform", rar_parameters=rarp, n_start=nstart if rar else n, p_omega=p if rar else None,
+            max_pts=(1.0,) * dim, method="uniform", rar_parameters=rarp, n_start=nstart if rar else start_without_rar(n), p_omega=p if rar else None,
             p_border=None, rar_iter_from_last_sampling=None, rar_iter_nb=J if rar else None, curr_omega_idx=idx,
             curr_omega_border_idx=None, omega=st, omega_border=None))
         return ex, (lambda: ex.call_method(rec, "inside_batch")), ("omega", n, (dim,)), (neff if rar else n), "curr_omega_idx", pre, rec
@@ -284,14 +291,19 @@ def native_replay(which, vals):
         nn, bb = 4, 2
     cands = [(nn, bb)] if nn <= 64 else []
     cands += [(4, 2), (8, 4), (6, 3), (1, 1), (5, 2), (7, 3)]
+    try:
+        ns_user = int(vals["n_start_given_by_user"]) if "n_start_given_by_user" in vals else None
+    except Exception:
+        ns_user = None
     for (nn, bb) in cands:
-        m = _native_monitor(which, nn, bb)
-        if m:
-            return m
+        for ns in ([None] if ns_user is None else [None, min(max(ns_user, 1), nn), max(1, nn // 2)]):
+            m = _native_monitor(which, nn, bb, ns)
+            if m:
+                return m
     return None
 
 
-def _native_monitor(which, nn, bb):
+def _native_monitor(which, nn, bb, ns_user=None):
     import jax
     import jax.numpy as jnp
     import numpy as np
@@ -307,19 +319,23 @@ def _native_monitor(which, nn, bb):
         st = lambda g: np.asarray(g.times)
         ix = lambda g: int(g.curr_time_idx)
     elif "temporal_batch" in which:
-        g = DataGeneratorODE(key, nn, 0.0, 1.0, bb)
+        g = DataGeneratorODE(key, nn, 0.0, 1.0, bb, nt_start=ns_user)
         get = lambda g: g.temporal_batch()
         st = lambda g: np.asarray(g.times)
         ix = lambda g: int(g.curr_time_idx)
     elif "inside_batch" in which:
-        g = CubicMeshPDEStatio(key=key, n=nn, nb=None, omega_batch_size=bb, omega_border_batch_size=None, dim=1, min_pts=(0.0,), max_pts=(1.0,))
+        dim_ = 2 if "dim=2" in which else 1
+        g = CubicMeshPDEStatio(key=key, n=nn, nb=None, omega_batch_size=bb, omega_border_batch_size=None, dim=dim_, min_pts=(0.0,) * dim_, max_pts=(1.0,) * dim_,
+                               n_start=ns_user)
         get = lambda g: g.inside_batch()
-        st = lambda g: np.asarray(g.omega)[:, 0]
+        st = lambda g: np.asarray(g.omega)[:, -1]
+        full = lambda g: np.asarray(g.omega)
         ix = lambda g: int(g.curr_omega_idx)
     elif "border_batch" in which:
         g = CubicMeshPDEStatio(key=key, n=4, nb=4 * nn, omega_batch_size=2, omega_border_batch_size=bb, dim=2, min_pts=(0.0, 0.0), max_pts=(1.0, 1.0))
         get = lambda g: g.border_batch()
         st = lambda g: np.asarray(g.omega_border)[:, 1, 0]
+        full = lambda g: np.asarray(g.omega_border).reshape(np.asarray(g.omega_border).shape[0], -1)
         ix = lambda g: int(g.curr_omega_border_idx)
     else:
         g = DataGeneratorObservations(key, bb, jnp.arange(nn, dtype=float)[:, None], jnp.arange(nn, dtype=float)[:, None])
@@ -327,12 +343,18 @@ def _native_monitor(which, nn, bb):
         st = lambda g: np.asarray(g.indices).astype(float)
         ix = lambda g: int(g.curr_idx)
     base = np.sort(st(g))
+    full = locals().get("full")
+    rows0 = None if full is None else sorted(map(tuple, np.round(full(g), 9).tolist()))
     served, prev = [], None
     for call in range(3 * (nn // bb + 2)):
         g2, batch = get(g)
         cur = st(g2)
         if not np.allclose(np.sort(cur), base):
             msgs.append(f"call {call}: the store is no longer a permutation of the initial store")
+            break
+        if full is not None and sorted(map(tuple, np.round(full(g2), 9).tolist())) != rows0:
+            msgs.append(f"call {call}: n={nn}, b={bb}: the stored rows are no longer the initial rows (coordinates of different "
+                        f"points were mixed): e.g. row 0 is now {full(g2)[0].tolist()}")
             break
         resh = prev is None or ix(g2) == 0
         bvals = np.asarray(batch["pinn_in"] if isinstance(batch, dict) else batch).reshape(bb, -1)[:, -1 if "border" not in which else 0]
@@ -343,7 +365,8 @@ def _native_monitor(which, nn, bb):
             break
         if resh and prev is not None:
             if len(set(np.round(served, 9))) < nn:
-                msgs.append(f"call {call}: reshuffle before every point was served ({len(set(np.round(served, 9)))}/{nn})")
+                msgs.append(f"call {call}: n={nn}, b={bb}" + (f", n_start={ns_user} passed without RAR" if ns_user else "") +
+                            f": reshuffle before every point was served ({len(set(np.round(served, 9)))}/{nn})")
             served = []
         if not resh and nn % bb == 0 and set(np.round(bvals, 9)) & set(np.round(served, 9)):
             msgs.append(f"call {call}: n={nn}, b={bb}: a point is served twice between two reshuffles")
